@@ -225,6 +225,13 @@ inline bool run_history(Choice &c, Ctx &cx, bool light, unsigned char heapfill, 
         bool ab = e.call();
         e.lwork = saved_lwork;
         if (ab) { cx.fail("abort", tag + ": library called ABORT: " + vf_abort_msg()); vf_purge(); return false; }
+        if (H.user_mem) {   // every byte written on the caller's behalf lies inside [work, work + lwork): the bytes around it keep their fill
+            const unsigned char *w0 = H.workbuf.data(), *w = (const unsigned char *)e.work, *wend = H.workbuf.data() + H.workbuf.size();
+            bool hit = false; long off = 0;
+            for (const unsigned char *q = w0; q < w && !hit; ++q) if (*q != workfill) { hit = true; off = (long)(q - w); }
+            for (const unsigned char *q = w + saved_lwork; q < wend && !hit; ++q) if (*q != workfill) { hit = true; off = (long)(q - w); }
+            if (hit) { cx.fail("workspace-overrun", tag + fmt(": byte work[%ld] outside the caller's workspace of %lld bytes (base %% 8 = %d) was overwritten", off, (long long)saved_lwork, (int)((uintptr_t)w & 7))); e.lu_live = false; e.teardown(); vf_purge(); return false; }
+        }
         long long info = e.info;
         H.steps_done++;
         if (kind == ST_QUERY) {
